@@ -34,7 +34,8 @@ PARALLEL = True
 EXHAUSTIVE = False
 CORRESPONDENCE = ("Drivers/C09.lean (Idp.create; Sp.process ∘ Idp.toSp) vs Server.create_authn_response read back by an "
                   "independent XML reader, and Saml2Client.parse_authn_request_response on that very message")
-RULE = ("complete product of create_authn_response's shaping arguments (22 farg trees x 7 authn dictionaries x "
+RULE = ("every public entry point x complete sign_response/sign_assertion argument matrix x (a)symmetric configurations "
+        "(162 cells) + all 81 pairs of configuration forms of the two boolean options (324 cases) + complete product of create_authn_response's shaping arguments (22 farg trees x 7 authn dictionaries x "
         "session_not_on_or_after x 3 status x name_id given or not = 1848 cells) + random IdP configurations (sign_response/sign_assertion/algorithms/policy per requester, registration authority, "
         "default and \"\" entries/domain) x arguments (requester, binding, NameIDPolicy, stored identifiers, explicit NameID, "
         "authn dictionary, sign_* and algorithm arguments, session_not_on_or_after, release_policy, clock) x receiving SP "
@@ -63,6 +64,12 @@ ASSUMPTIONS = [
     "does not test the allow-list and then depends on what the xmlsec backend supports); RIPEMD160 is not generated (stand-in)",
     "identity attributes are taken from the bundled attribute maps, values are non-empty strings without surrounding whitespace",
     "the SP stage uses HTTP-POST / HTTP-Redirect delivery, no conv_info",
+    "boolean options of the idp section are generated as None/True/False/\"true\"/\"false\"/\"True\"/\"\"/0/1; other strings "
+    "(\"False\", \"no\", \"TRUE\" …) are stored as strings and read as true by the code and are not generated; lifetime is a "
+    "dictionary (a number makes in_a_while raise TypeError); algorithm options are URIs or \"\"",
+    "entry points: create_authn_response, create_authn_request_response, create_ecp_authn_request_response (IdP stage only, "
+    "its SOAP envelope is unwrapped by the reader); create_attribute_response is not an authentication response (AA policy, "
+    "Recipient = requester entityID, no AuthnStatement, sign_assertion not honoured) and is not covered",
     "an authn dictionary naming an authenticating authority but no class reference yields an AuthnStatement without AuthnContext "
     "(schema-invalid); such cases are checked on the IdP side only",
 ]
@@ -312,11 +319,38 @@ def opt_bool(rng, p_none=0.4):
     return None if rng.random() < p_none else rng.random() < 0.5
 
 
+# The forms a boolean option of the idp section may take.  Config.load_special turns "true"/"false" into booleans and
+# stores anything else as it is; the stored value is then only tested for None and for truthiness.  Generated: the
+# forms the unchanged code treats consistently with their evident meaning.  NOT generated: "False", "FALSE", "no", "0",
+# "TRUE" … — any other non-empty string is stored as a string and therefore read as TRUE (observed: "False" signs);
+# the property cannot say what such an undocumented spelling "demands" (Spec: formDefined = false).
+CFG_BOOL_FORMS = [None, True, False, "true", "false", "True", "", 0, 1]
+
+
+def form_bool(v):
+    """generator-side reading of a configuration form (steering only)"""
+    if v is None:
+        return None
+    return v is True or v == "true" or v == "True" or (isinstance(v, int) and not isinstance(v, bool) and v != 0)
+
+
+def cfg_bool_form(rng):
+    c = rng.random()
+    if c < 0.35:
+        return None
+    if c < 0.65:
+        return rng.random() < 0.5
+    return rng.choice(CFG_BOOL_FORMS[3:])
+
+
+ENTRIES = ["authn_response", "authn_request_response", "ecp"]
+
+
 def gen_idp_cfg(rng):
     return {"entity_id": S.IDP_ID,
-            "sign_response": opt_bool(rng), "sign_assertion": opt_bool(rng),
-            "signing_algorithm": rng.choice(SIG_ALGS) if rng.random() < 0.35 else None,
-            "digest_algorithm": rng.choice(DIGEST_ALGS) if rng.random() < 0.35 else None,
+            "sign_response": cfg_bool_form(rng), "sign_assertion": cfg_bool_form(rng),
+            "signing_algorithm": rng.choice(SIG_ALGS + [""]) if rng.random() < 0.38 else None,
+            "digest_algorithm": rng.choice(DIGEST_ALGS + [""]) if rng.random() < 0.38 else None,
             "policy": gen_policy(rng),
             "domain": rng.choice(["verif.example", "mail.idp.example"]) if rng.random() < 0.6 else None,
             "ras": RAS}
@@ -435,7 +469,7 @@ def gen_status(rng):
 
 
 def resolved(arg, cfg):
-    return arg if arg is not None else cfg if cfg is not None else False
+    return arg if arg is not None else form_bool(cfg) if cfg is not None else False
 
 
 def gen_args(rng, cfg, k):
@@ -567,8 +601,18 @@ def gen_cases(rng, tier):
                 # AuthnContext, which is not schema-valid; what the SP does with it depends on whether a signature
                 # check (which validates the schema) happens.  Not an "authn context" of the quantifier: IdP stage only.
                 side = None
-            yield {"idp": cfg, "args": a, "sp": side}
+            c = rng.random()
+            entry = ENTRIES[0] if c < 0.7 else ENTRIES[1] if c < 0.9 else ENTRIES[2]
+            if entry == "ecp":
+                side = None  # PAOS delivery is outside the SP stage
+            elif entry == "authn_request_response" and side is not None:
+                # the SP clock was placed for the policy in force WITH release_policy, which this entry point drops
+                side, life = gen_side(rng, cfg, {k: v for k, v in a.items() if k != "release_policy"})
+                if bare_statement(a["authn"]):
+                    side = None
+            yield {"entry": entry, "idp": cfg, "args": a, "sp": side}
     yield from gen_product(rng)
+    yield from gen_matrix(rng)
 
 
 def bare_statement(authn):
@@ -602,6 +646,44 @@ def product_fargs(a):
         (farg_abstract(method=SCM_BEARER, recipient=a["destination"], irt=a["in_response_to"], address="198.51.100.23",
                        nb=now - 1, nooa=now + 1), 32),                   # everything preset
     ]
+
+
+def gen_matrix(rng):
+    """(1) every public entry point x the complete argument flag matrix (None/True/False for sign_response and
+    sign_assertion, asymmetric combinations included) x symmetric and asymmetric configurations;
+    (2) every form of the two boolean options in the configuration, pairwise, without arguments and with one
+    overriding argument."""
+    i = 0
+    base = {"destination": SPS["sp2"]["acs"]["post"], "sp_entity_id": S.SP2_ID, "requester": "sp2", "binding": "post",
+            "nip": None, "userid": "user-2", "name_id": None, "authn": {"class_ref": CLASS_REFS[0], "authn_auth": S.IDP_ID},
+            "sign_alg": None, "digest_alg": None, "session_nooa": None, "stored": [], "now": S.NOW0 + 1,
+            "attrs": [["mail", ["anna@example.org"]]], "farg": None, "status": None}
+
+    def case(entry, cfg_pair, sr, sa):
+        nonlocal i
+        i += 1
+        cfg = dict(PRODUCT_CFG, sign_response=cfg_pair[0], sign_assertion=cfg_pair[1])
+        a = dict(copy.deepcopy(base), in_response_to="id-mx-%d" % i, sign_response=sr, sign_assertion=sa)
+        side = None
+        if entry != "ecp":
+            side = {"entity": "sp2", "binding": "post", "want_resp": False, "want_assert": None, "want_either": None,
+                    "allow_unsolicited": None, "skew": None, "trusts": True, "now": S.NOW0 + 2,
+                    "outstanding": [[a["in_response_to"], "/came/from/" + a["in_response_to"]]],
+                    "entity_id": S.SP2_ID, "return_addrs": [SPS["sp2"]["acs"]["post"]]}
+        return {"entry": entry, "idp": cfg, "args": a, "sp": side}
+
+    pairs = [(None, None), (True, False), (False, True), ("true", "false"), ("false", "true"), (True, True)]
+    for entry in ENTRIES:
+        for pair in pairs:
+            for sr in (None, True, False):
+                for sa in (None, True, False):
+                    yield case(entry, pair, sr, sa)
+    for f1 in CFG_BOOL_FORMS:
+        for f2 in CFG_BOOL_FORMS:
+            yield case("authn_response", (f1, f2), None, None)
+            yield case(rng.choice(ENTRIES[1:]), (f1, f2), None, None)
+            yield case("authn_response", (f1, f2), rng.choice([True, False]), None)
+            yield case("authn_response", (f1, f2), None, rng.choice([True, False]))
 
 
 PRODUCT_AUTHN = [None, {"class_ref": CLASS_REFS[0]}, {"class_ref": CLASS_REFS[1], "authn_auth": S.IDP_ID},
@@ -706,6 +788,11 @@ def read_assertion(a):
 
 def read_response(xml):
     root = ET.fromstring(xml)
+    if root.tag == "{http://schemas.xmlsoap.org/soap/envelope/}Envelope":  # the ECP entry point's SOAP wrapping
+        inner = root.find("{http://schemas.xmlsoap.org/soap/envelope/}Body/{%s}Response" % SAMLP)
+        if inner is None:
+            raise ValueError("SOAP envelope without a Response in its Body")
+        root = inner
     if root.tag != "{%s}Response" % SAMLP:
         raise ValueError("not a Response: %s" % root.tag)
     return {"r": "ok", "issuer": _text(root.find("{%s}Issuer" % SAML)), "destination": root.get("Destination"),
@@ -805,10 +892,20 @@ def run_impl(case):
     elif authn and "decl" in authn:
         del authn["decl"]
     identity = {n: list(vs) for n, vs in a["attrs"]}
+    entry = case.get("entry", "authn_response")
     with S.clock(a["now"]):
         try:
-            resp = idp.create_authn_response(identity, rargs["in_response_to"], rargs["destination"], rargs["sp_entity_id"],
-                                             name_id_policy=pnip, userid=a["userid"], authn=authn, **kw)
+            if entry == "authn_request_response":
+                resp = idp.create_authn_request_response(identity, rargs["in_response_to"], rargs["destination"],
+                                                         rargs["sp_entity_id"], name_id_policy=pnip, userid=a["userid"],
+                                                         authn=authn, **kw)
+            elif entry == "ecp":
+                resp = idp.create_ecp_authn_request_response(rargs["destination"], identity, rargs["in_response_to"],
+                                                             rargs["destination"], rargs["sp_entity_id"],
+                                                             name_id_policy=pnip, userid=a["userid"], authn=authn, **kw)
+            else:
+                resp = idp.create_authn_response(identity, rargs["in_response_to"], rargs["destination"], rargs["sp_entity_id"],
+                                                 name_id_policy=pnip, userid=a["userid"], authn=authn, **kw)
         except Exception as e:  # whatever leaves create_authn_response: no Response was created
             return {"idp": {"r": "refused", "why": "%s: %s" % (type(e).__name__, str(e)[:60])}, "sp": None}
     xml = resp if isinstance(resp, str) else str(resp)
